@@ -10,90 +10,139 @@ import (
 	"nvharness/lib/gofacts"
 )
 
-// extract regenerates lean/Nv/Gen/C01.lean: the delete guard of SemMap.release (a model parameter) and the shape
-// facts the hand-written model relies on. Everything is decided on the normalised source text of the current
-// declarations (comments dropped, white space collapsed); what cannot be classified is `unknown` / false.
-func extract(repo, leanDir string) {
-	sem := gofacts.MustLoad(repo, "syncx/semap/semaphore.go")
-	mp := gofacts.MustLoad(repo, "syncx/semap/map.go")
-	wm := gofacts.MustLoad(repo, "syncx/semap/wmap.go")
+// Whole canonical bodies (see canonBody) the hand-written model was written against; a function may have several
+// accepted texts (behaviour-preserving variants that were reviewed). Anything else — an inserted, removed or changed
+// statement anywhere in a pinned function — makes fact `wholeBodies` false and breaks the tie. Refresh with
+// `c01 canon <repo>` only after re-reading the model.
+var expectedBodies = map[string][]string{
+	".newWeighted":           {"{ _v0 := &Weighted{size: _p0} return _v0 }", "{ return &Weighted{size: _p0} }"},
+	"Weighted.acquire":       {"{ if _r.size-_r.cur >= _p2 && _r.waiters.Len() == 0 { _r.cur += _p2 _p1.Unlock() return nil } if _p2 > _r.size { _p1.Unlock() <-_p0.Done() return _p0.Err() } _v0 := make(chan struct{}) _v1 := waiter{n: _p2, ready: _v0} _v2 := _r.waiters.PushBack(_v1) _p1.Unlock() select { case <-_p0.Done(): _v3 := _p0.Err() _p1.Lock() select { case <-_v0: _v3 = nil default: _v4 := _r.waiters.Front() == _v2 _r.waiters.Remove(_v2) if _v4 && _r.size > _r.cur { _r.notifyWaiters() } } _p1.Unlock() return _v3 case <-_v0: return nil } }"},
+	"Weighted.release":       {"{ _r.cur -= _p0 if _r.cur < 0 { panic(\"semaphore: released more than held\") } return _r.notifyWaiters() }"},
+	"Weighted.notifyWaiters": {"{ for { _v0 := _r.waiters.Front() if _v0 == nil { return true } _v1 := _v0.Value.(waiter) if _r.size-_r.cur < _v1.n { break } _r.cur += _v1.n _r.waiters.Remove(_v0) close(_v1.ready) } return false }"},
+	".NewSemMap":             {"{ var _v0 = RangeOption(_p0...) return newSemMap(_v0.rwRatio) }"},
+	".newSemMap":             {"{ var _v0 = &SemMap{} _v0.mux = &sync.Mutex{} _v0.m = make(map[interface{}]*Weighted) _v0.rwRatio = _p0 return _v0 }"},
+	"SemMap.AcquireRead":     {"{ return _r.acquire(_p0, _p1, 1) }"},
+	"SemMap.ReleaseRead":     {"{ _r.release(_p0, _p1, 1) }"},
+	"SemMap.AcquireWrite":    {"{ return _r.acquire(_p0, _p1, _r.rwRatio) }"},
+	"SemMap.ReleaseWrite":    {"{ _r.release(_p0, _p1, _r.rwRatio) }"},
+	"SemMap.acquire": {
+		"{ var _v0 error _r.mux.Lock() var _v1, _v2 = _r.m[_p1] if _v2 { _v0 = _v1.acquire(_p0, _r.mux, _p2) if _v0 != nil { return nil, _v0 } return _v1, nil } _v1 = newWeighted(_r.rwRatio) _r.m[_p1] = _v1 _v0 = _v1.acquire(_p0, _r.mux, _p2) if _v0 != nil { return nil, _v0 } return _v1, nil }",
+		// the two branches merged (reviewed: same behaviour)
+		"{ var _v0 error _r.mux.Lock() var _v1, _v2 = _r.m[_p1] if !_v2 { _v1 = newWeighted(_r.rwRatio) _r.m[_p1] = _v1 } _v0 = _v1.acquire(_p0, _r.mux, _p2) if _v0 != nil { return nil, _v0 } return _v1, nil }",
+	},
+	// SemMap.release: prefix + one of the guard forms below (see extract)
+	".NewWideSemMap":          {"{ var _v0 = RangeOption(_p0...) return newWideSemMap(_v0.rwRatio, _v0.prime, false) }"},
+	".NewWideXHashSemMap":     {"{ var _v0 = RangeOption(_p0...) return newWideSemMap(_v0.rwRatio, _v0.prime, true) }"},
+	".newWideSemMap":          {"{ var _v0 = &WideSemMap{} if _p1 > 0 { _v0.rehash = remap.NewReMap(remap.WithPrime(_p1)) } else { _v0.rehash = remap.NewReMap() } var _v1 = _v0.rehash.Numbs() _v0.ms = make([]*SemMap, _v1) for _v2 := uint64(0); _v2 < _v1; _v2++ { _v0.ms[_v2] = newSemMap(_p0) } if _p2 { _v0.calKeyFn = _v0.rehash.XHashIndex } else { _v0.calKeyFn = _v0.rehash.SimpleIndex } return _v0 }"},
+	"WideSemMap.AcquireRead":  {"{ return _r.calculateKey(_p1).AcquireRead(_p0, _p1) }"},
+	"WideSemMap.ReleaseRead":  {"{ _r.calculateKey(_p0).ReleaseRead(_p0, _p1) }"},
+	"WideSemMap.AcquireWrite": {"{ return _r.calculateKey(_p1).AcquireWrite(_p0, _p1) }"},
+	"WideSemMap.ReleaseWrite": {"{ _r.calculateKey(_p0).ReleaseWrite(_p0, _p1) }"},
+	"WideSemMap.calculateKey": {"{ var _v0 = _r.calKeyFn(_p0) return _r.ms[_v0] }"},
+	".RangeOption":            {"{ var _v0 = &_Option{ rwRatio: DefaultRWRatio, } for _, _v1 := range _p0 { _v1(_v0) } return _v0 }"},
+	".WithRwRatio":            {"{ return func(_v0 *_Option) { _v0.rwRatio = _p0 } }"},
+	".WithPrime":              {"{ return func(_v0 *_Option) { _v0.prime = _p0 } }"},
+}
 
-	wacq := sem.Body("Weighted", "acquire")
-	wrel := sem.Body("Weighted", "release")
-	wnot := sem.Body("Weighted", "notifyWaiters")
-	macq := mp.Body("SemMap", "acquire")
-	mrel := mp.Body("SemMap", "release")
+const releasePrefix = "{ _r.mux.Lock() defer _r.mux.Unlock() var _v0 = _p1.release(_p2) "
 
-	// ---- SemMap.acquire: lock first, lookup-or-create under the lock, no unlock here (handed to Weighted.acquire)
-	acquireLocksFirst := gofacts.Before(macq, "s.mux.Lock()", "s.m[key]") && !gofacts.Has(macq, "Unlock") &&
-		strings.Count(macq, "s.mux.Lock()") == 1 && !gofacts.Has(macq, "go ")
-	createsUnderLock := (gofacts.Has(macq, "w = newWeighted(s.rwRatio) s.m[key] = w err = w.acquire(ctx, s.mux, n)") ||
-		gofacts.Has(macq, "if !ok { w = newWeighted(s.rwRatio) s.m[key] = w } err = w.acquire(ctx, s.mux, n)")) &&
-		gofacts.Has(sem.Body("", "newWeighted"), "&Weighted{size: n}") &&
-		gofacts.Has(mp.Body("", "newSemMap"), "m.rwRatio = rwRatio")
+// guard forms of SemMap.release (canonical text after releasePrefix) -> Cfg.guard.
+// `_p1.cur <= 0` counts as emptyAndIdle only together with fact releaseSubtracts: Weighted.release panics below 0,
+// so `cur <= 0` and `cur == 0` are the same test.
+var releaseGuards = map[string]string{
+	"if _v0 { delete(_r.m, _p0) return } }":                 "emptyOnly",
+	"if _v0 { delete(_r.m, _p0) } }":                        "emptyOnly",
+	"if _v0 && _p1.cur == 0 { delete(_r.m, _p0) return } }": "emptyAndIdle",
+	"if _v0 && _p1.cur == 0 { delete(_r.m, _p0) } }":        "emptyAndIdle",
+	"if _p1.cur == 0 && _v0 { delete(_r.m, _p0) return } }": "emptyAndIdle",
+	"if _p1.cur == 0 && _v0 { delete(_r.m, _p0) } }":        "emptyAndIdle",
+	"if _v0 && _p1.cur <= 0 { delete(_r.m, _p0) return } }": "emptyAndIdle",
+	"if _v0 && _p1.cur <= 0 { delete(_r.m, _p0) } }":        "emptyAndIdle",
+}
 
-	// ---- Weighted.acquire
-	fast := strings.HasPrefix(wacq, "{ if s.size-s.cur >= n && s.waiters.Len() == 0 { s.cur += n mu.Unlock() return nil }")
-	doomed := gofacts.Before(wacq, "if n > s.size { mu.Unlock() <-ctx.Done() return ctx.Err() }", "s.waiters.PushBack(")
-	enqueue := gofacts.Has(wacq, "ready := make(chan struct{}) w := waiter{n: n, ready: ready} elem := s.waiters.PushBack(w) mu.Unlock() select {") &&
-		!gofacts.Has(wacq, "PushFront")
-	cancelRelocks := gofacts.Has(wacq, "case <-ctx.Done(): err := ctx.Err() mu.Lock() select {") &&
-		gofacts.Has(wacq, "} mu.Unlock() return err case <-ready: return nil } }")
-	prefersReady := gofacts.Has(wacq, "mu.Lock() select { case <-ready: err = nil default:")
-	renotify := gofacts.Has(wacq, "default: isFront := s.waiters.Front() == elem s.waiters.Remove(elem) if isFront && s.size > s.cur { s.notifyWaiters() } } mu.Unlock()")
-
-	// ---- Weighted.release / notifyWaiters
-	relSub := wrel == `{ s.cur -= n if s.cur < 0 { panic("semaphore: released more than held") } return s.notifyWaiters() }`
-	headOnly := wnot == "{ for { next := s.waiters.Front() if next == nil { return true } w := next.Value.(waiter) if s.size-s.cur < w.n { break } s.cur += w.n s.waiters.Remove(next) close(w.ready) } return false }"
-
-	// ---- SemMap.release: covered by the mutex; the delete guard
-	relLocked := strings.HasPrefix(mrel, "{ s.mux.Lock() defer s.mux.Unlock() var empty = w.release(n) ") &&
-		strings.Count(mrel, "w.release(") == 1
-	guard := "unknown"
-	rest := strings.TrimSpace(gofacts.After(mrel, "var empty = w.release(n)"))
-	del := "{ delete(s.m, key) return } }"
-	del2 := "{ delete(s.m, key) } }"
-	switch {
-	case rest == "if empty "+del || rest == "if empty "+del2:
-		guard = "emptyOnly"
-	case rest == "if empty && w.cur == 0 "+del || rest == "if empty && w.cur == 0 "+del2 ||
-		rest == "if w.cur == 0 && empty "+del || rest == "if w.cur == 0 && empty "+del2 ||
-		rest == "if empty && w.cur <= 0 "+del || rest == "if empty && w.cur <= 0 "+del2:
-		guard = "emptyAndIdle"
+func oneOf(s string, alts []string) bool {
+	for _, a := range alts {
+		if s == a {
+			return true
+		}
 	}
+	return false
+}
 
-	// ---- weights
-	readOne := mp.Body("SemMap", "AcquireRead") == "{ return s.acquire(ctx, key, 1) }" &&
-		mp.Body("SemMap", "ReleaseRead") == "{ s.release(key, w, 1) }"
-	writeRatio := mp.Body("SemMap", "AcquireWrite") == "{ return s.acquire(ctx, key, s.rwRatio) }" &&
-		mp.Body("SemMap", "ReleaseWrite") == "{ s.release(key, w, s.rwRatio) }"
+// extract regenerates lean/Nv/Gen/C01.lean: the delete guard of SemMap.release (a model parameter), the default
+// ratio, and the shape facts the hand-written model relies on. Everything is decided on the canonical text of the
+// current declarations (comments dropped, white space collapsed, local names canonical); what cannot be classified is
+// `unknown` / false / 0, never guessed.
+func extract(repo, leanDir string) {
+	files := map[string]*gofacts.File{}
+	canon := map[string]string{}
+	for _, p := range pinned {
+		if files[p.file] == nil {
+			files[p.file] = gofacts.MustLoad(repo, p.file)
+		}
+		canon[p.recv+"."+p.name] = canonOf(files[p.file], p.recv, p.name)
+	}
+	is := func(name string) bool { return oneOf(canon[name], expectedBodies[name]) }
 
-	// ---- sharded variants: every method goes through calculateKey(key) with the same key
-	wide := wm.Body("WideSemMap", "calculateKey") == "{ var i = s.calKeyFn(key) return s.ms[i] }" &&
-		wm.Body("WideSemMap", "AcquireRead") == "{ return s.calculateKey(key).AcquireRead(ctx, key) }" &&
-		wm.Body("WideSemMap", "ReleaseRead") == "{ s.calculateKey(key).ReleaseRead(key, w) }" &&
-		wm.Body("WideSemMap", "AcquireWrite") == "{ return s.calculateKey(key).AcquireWrite(ctx, key) }" &&
-		wm.Body("WideSemMap", "ReleaseWrite") == "{ s.calculateKey(key).ReleaseWrite(key, w) }" &&
-		gofacts.Has(wm.Body("", "newWideSemMap"), "for i := uint64(0); i < numbs; i++ { w.ms[i] = newSemMap(rwRatio) }") &&
-		gofacts.Has(wm.Body("", "newWideSemMap"), "if useXHash { w.calKeyFn = w.rehash.XHashIndex } else { w.calKeyFn = w.rehash.SimpleIndex }")
+	// ---- whole bodies: every pinned function is one of its accepted texts
+	var deviating []string
+	for _, p := range pinned {
+		name := p.recv + "." + p.name
+		if name == "SemMap.release" {
+			continue
+		}
+		if !is(name) {
+			deviating = append(deviating, name)
+		}
+	}
+	mrel := canon["SemMap.release"]
+	guard := "unknown"
+	relLocked := strings.HasPrefix(mrel, releasePrefix)
+	if relLocked {
+		if g, ok := releaseGuards[strings.TrimPrefix(mrel, releasePrefix)]; ok {
+			guard = g
+		} else {
+			deviating = append(deviating, "SemMap.release")
+		}
+	} else {
+		deviating = append(deviating, "SemMap.release")
+	}
+	whole := len(deviating) == 0
+
+	// ---- the individual facts: fragments of the canonical text, so that a deviation is named where possible
+	macq, wacq := canon["SemMap.acquire"], canon["Weighted.acquire"]
+	acquireLocksFirst := gofacts.Before(macq, "_r.mux.Lock()", "_r.m[_p1]") && !gofacts.Has(macq, "Unlock") &&
+		strings.Count(macq, "_r.mux.Lock()") == 1 && !gofacts.Has(macq, "go ")
+	createsUnderLock := is("SemMap.acquire") && is(".newWeighted") && is(".newSemMap")
+	fast := strings.HasPrefix(wacq, "{ if _r.size-_r.cur >= _p2 && _r.waiters.Len() == 0 { _r.cur += _p2 _p1.Unlock() return nil } if _p2 > _r.size {")
+	doomed := gofacts.Before(wacq, "if _p2 > _r.size { _p1.Unlock() <-_p0.Done() return _p0.Err() } _v0 := make(chan struct{})", "_r.waiters.PushBack(")
+	enqueue := gofacts.Has(wacq, "_v0 := make(chan struct{}) _v1 := waiter{n: _p2, ready: _v0} _v2 := _r.waiters.PushBack(_v1) _p1.Unlock() select {") &&
+		!gofacts.Has(wacq, "PushFront")
+	cancelRelocks := gofacts.Has(wacq, "case <-_p0.Done(): _v3 := _p0.Err() _p1.Lock() select {") &&
+		strings.HasSuffix(wacq, "} _p1.Unlock() return _v3 case <-_v0: return nil } }")
+	prefersReady := gofacts.Has(wacq, "_p1.Lock() select { case <-_v0: _v3 = nil default:")
+	renotify := gofacts.Has(wacq, "default: _v4 := _r.waiters.Front() == _v2 _r.waiters.Remove(_v2) if _v4 && _r.size > _r.cur { _r.notifyWaiters() } } _p1.Unlock()")
+	relSub := is("Weighted.release")
+	headOnly := is("Weighted.notifyWaiters")
+	readOne := is("SemMap.AcquireRead") && is("SemMap.ReleaseRead")
+	writeRatio := is("SemMap.AcquireWrite") && is("SemMap.ReleaseWrite")
+	wide := is("WideSemMap.calculateKey") && is("WideSemMap.AcquireRead") && is("WideSemMap.ReleaseRead") &&
+		is("WideSemMap.AcquireWrite") && is("WideSemMap.ReleaseWrite") && is(".newWideSemMap")
 
 	// ---- the default ratio (NewSemMap() without WithRwRatio): a literal constant used as RangeOption's initial value
 	defRatio := 0
-	opt := gofacts.MustLoad(repo, "syncx/semap/option.go")
+	opt := files["syncx/semap/option.go"]
 	optSrc := opt.Src(opt.AST)
 	if m := regexp.MustCompile(`const \( DefaultRWRatio = (\d{1,6}) \)|const DefaultRWRatio = (\d{1,6})\b`).FindStringSubmatch(optSrc); m != nil &&
-		gofacts.Has(opt.Body("", "RangeOption"), "var o = &_Option{ rwRatio: DefaultRWRatio, }") &&
-		gofacts.Has(mp.Body("", "NewSemMap"), "var o = RangeOption(opts...) return newSemMap(o.rwRatio)") &&
-		gofacts.Has(wm.Body("", "NewWideSemMap"), "var o = RangeOption(opts...) return newWideSemMap(o.rwRatio, o.prime, false)") &&
-		gofacts.Has(wm.Body("", "NewWideXHashSemMap"), "var o = RangeOption(opts...) return newWideSemMap(o.rwRatio, o.prime, true)") {
+		is(".RangeOption") && is(".WithRwRatio") && is(".NewSemMap") && is(".NewWideSemMap") && is(".NewWideXHashSemMap") {
 		fmt.Sscanf(m[1]+m[2], "%d", &defRatio)
 	}
 
 	facts := []bool{acquireLocksFirst, createsUnderLock, fast, doomed, enqueue, cancelRelocks, prefersReady, renotify,
-		relSub, headOnly, relLocked, readOne, writeRatio, wide}
+		relSub, headOnly, relLocked, readOne, writeRatio, wide, whole}
 	names := []string{"acquireLocksFirst", "createsUnderLock", "fastPathNeedsNoWaiters", "doomedBranch", "enqueueBack",
 		"cancelRelocks", "cancelPrefersReady", "cancelRenotifies", "releaseSubtracts", "notifyHeadOnly", "releaseLocked",
-		"readWeightOne", "writeWeightRatio", "wideRoutesByKey"}
+		"readWeightOne", "writeWeightRatio", "wideRoutesByKey", "wholeBodies"}
 	var fs, off []string
 	for i, b := range facts {
 		fs = append(fs, gofacts.LeanBool(b))
@@ -115,5 +164,5 @@ end Nv.Gen.C01
 		fmt.Fprintln(os.Stderr, err)
 		os.Exit(2)
 	}
-	fmt.Printf("extract C01: guard=%s defaultRatio=%d facts-not-as-expected=%v\n", guard, defRatio, off)
+	fmt.Printf("extract C01: guard=%s defaultRatio=%d facts-not-as-expected=%v bodies-not-as-expected=%v\n", guard, defRatio, off, deviating)
 }
